@@ -339,7 +339,8 @@ def main(prop, tier):
                     else:
                         for t in tags:
                             other[t] = other.get(t, 0) + 1
-                CC.run_sessions(drv, rng, info["tables"]["defender"], on_fail, coord_stats, 30 if q else 300, 40)
+                CC.run_sessions(drv, rng, info["tables"]["defender"], on_fail, coord_stats, 30 if q else 300, 40,
+                                {"burst": 0.1, "long_names": 0.2, "early_reset": 0.05})
         finally:
             drv.close()
     code, nviol = V.finish()
